@@ -217,13 +217,111 @@ def float_collision_cases(rng):
     return cases, tagsl
 
 
+# ---------------------------------------------------------------- mesh route
+
+MESH_WHAT = ("integer field on the mesh route (MeshFieldsComparator: sorting / space-dimension matching with zero padding): "
+             "the reported verdict differs from 'equal iff every entry identical' under user tolerances")
+
+
+def mesh_route(ctx, rounds):
+    """integer scalar / vector / tensor point and cell fields of all eight dtypes on small meshes, compared by
+    `MeshFieldsComparator` under EVERY combination of its three switches, source / reference in 2d or zero-padded 3d form
+    (both roles; equal dimensions too), stored order permuted or not, large user tolerances, 0 / 1 / several fields
+    differing in ONE integer entry.  Whenever the comparator compares the fields (its domain check passes) C09 demands:
+    a field with a differing entry is not reported as passed, a field with identical entries is.  Expected verdicts
+    come from the Lean model `Fc.defaultCheck` on the arrays in logical order, the lower-dimensional side zero-padded
+    (documented space-dimension matching); hyp: theorem C09_int_str_exact (all tolerances)."""
+    from fcv import meshint_p5a as mi
+    items = mi.enumerate_cases(ctx.rng, rounds)
+    lines, owner = [], []
+    for i, (c, _) in enumerate(items):
+        for ln in mi.model_lines(c):
+            lines.append(ln); owner.append(i)
+    reps = ctx.lean(lines) if ctx.driver_ok else [None] * len(lines)
+    per = [[] for _ in items]
+    for i, r in zip(owner, reps):
+        per[i].append(r)
+    for (c, tags), rs in zip(items, per):
+        r = mi.run_api(c)
+        spec = mi.spec_verdicts(c)
+        key = ("mesh-int", c["dt"], str(c["dims"]), str(c["switches"]), str(c["rel"]), str(c["abs"]),
+               repr(c["source"]), repr(c["reference"]))
+        if "raised" in r:
+            ctx.case(key, nontrivial=False, tags=list(tags) + ["mesh-raised"])
+            ctx.violation(dict(c, result=r), r["raised"], "a comparison suite", what="MeshFieldsComparator raised on integer fields")
+            continue
+        ctx.case(key, nontrivial=bool(c["changed"]), tags=list(tags) + ["mesh-domain-" + ("equal" if r["domain"] else "unequal")],
+                 sample={"dt": c["dt"], "dims": c["dims"], "switches": c["switches"], "rel": c["rel"], "abs": c["abs"],
+                         "changed": c["changed"], "result": r})
+        if not r["domain"]:
+            # the comparator did not compare any field (differing space dimension with matching disabled, permuted
+            # storage with reordering disabled): nothing was reported equal
+            if any(st == "passed" for st in r["status"].values()):
+                ctx.violation(dict(c, result=r), "fields passed", "no comparison", what="fields reported although the domains differ")
+            continue
+        for (name, v), rep in zip(spec.items(), rs):
+            st = r["status"].get(name)
+            impl = "T" if st == "passed" else ("F" if st == "failed" else "E:" + str(st))
+            if rep is not None:
+                if "model" not in rep:
+                    ctx.inconsistent(dict(c, field=name), str(rep), "bad-op")
+                elif rep.get("hyp") == "1":
+                    if rep["model"] != impl:
+                        ctx.mismatch(dict(c, field=name, status=st), impl, rep["model"],
+                                     what="mesh route: reported field status vs model verdict on the (padded) integer arrays")
+                    if rep["spec"] != rep["model"]:
+                        ctx.inconsistent(dict(c, field=name), rep["model"], rep["spec"])
+                    if rep["spec"] != v:
+                        ctx.inconsistent(dict(c, field=name), "lean-spec=" + rep["spec"], "python-spec=" + v)
+            if impl != v:
+                ctx.violation(dict(c, field=name, status=st, result=r), f"{name}: {st}",
+                              "passed" if v == "T" else "failed (exact comparison)", what=MESH_WHAT)
+
+
+def mesh_cli_route(ctx, rounds):
+    """the same through `fieldcompare file`: 2d `.xdmf` (meshio) next to zero-padded 3d `.vtu`, both roles, all integer
+    dtypes, large general / per-field -rtol / -atol: exit 0 iff no integer entry differs"""
+    from fcv import meshint_p5a as mi
+    if not mi.have_xdmf():
+        ctx.notes.append("mesh CLI route skipped: meshio / h5py not importable")
+        return
+    d = tempfile.mkdtemp(prefix="fcv_c09m_")
+    try:
+        for i, (c, tags) in enumerate(mi.enumerate_cli_cases(ctx.rng, rounds)):
+            r = mi.run_cli_case(c, os.path.join(d, f"c{i}"))
+            shutil.rmtree(os.path.join(d, f"c{i}"), ignore_errors=True)
+            key = ("mesh-int-cli", c["dt"], str(c["dims"]), str(mi.cli_options(c)), repr(c["source"]), repr(c["reference"]))
+            if not r["readok"]:
+                ctx.case(key, nontrivial=False, tags=list(tags) + ["mesh-cli-discarded-reader-sidecheck"])
+                continue
+            ctx.case(key, nontrivial=bool(c["changed"]), tags=list(tags) + ["mesh-cli-exit-" + r["out"]], sample=None)
+            payload = dict(c, argv_options=mi.cli_options(c), result=r)
+            if c["changed"] and r["out"] == "0":
+                ctx.violation(payload, "exit=0", "non-zero exit", what="CLI mesh route: a differing integer entry "
+                              "compared equal under user tolerances")
+            elif not c["changed"] and r["out"] != "0":
+                if r["failed_fields"]:
+                    ctx.violation(payload, "exit=" + r["out"], "exit 0", what="CLI mesh route: identical integer fields "
+                                  "reported unequal: " + ", ".join(r["failed_fields"]))
+                else:
+                    ctx.dist["mesh-cli-nonzero-without-field-failure"] += 1
+    finally:
+        shutil.rmtree(d, ignore_errors=True)
+
+
 def run(ctx):
     ctx.rule = ("cases = (predicate kind, tolerances, a, b) over int8..uint64 (same and mixed types, type extremes, "
                 "±1 around 2^53), unicode strings, int×float64, float64; one differing entry at none/first/middle/last; "
                 "tolerances default/0/1e-3/…/1e300/scaled; plus CLI runs on CSV files with integer and string columns under "
-                "-rtol/-atol; non-trivial = operands differ; distinct = distinct (kind, tolerances, a, b)")
+                "-rtol/-atol; plus the mesh route: integer scalar/vector/tensor point and cell fields (all 8 dtypes) through "
+                "MeshFieldsComparator under every switch combination, 2d vs zero-padded 3d (both roles) and equal dimensions, "
+                "permuted storage, large tolerances, single differing entries, and through the CLI (.xdmf 2d vs .vtu 3d); "
+                "non-trivial = operands differ; distinct = distinct (kind, tolerances, a, b) resp. (options, meshes)")
     ctx.assumptions += ["numpy >= 2 compares mixed-width integers exactly (sampled)",
-                        "CSV reader types integer / string columns as such (sampled by the CLI cases)"]
+                        "CSV reader types integer / string columns as such (sampled by the CLI cases)",
+                        "mesh route: the comparator aligns relabelled meshes (C02/C03) and zero-pads vector / tensor fields of "
+                        "the lower-dimensional side (documented space-dimension matching) before the predicate sees them; "
+                        ".xdmf / .vtu files read back to the integer data they were written from (side-check on every file)"]
     rng = ctx.rng
     n = ctx.scale(4000, 250000)
     cases, tagsl = [], []
@@ -235,6 +333,8 @@ def run(ctx):
     for i in range(0, len(cases), 5000):
         evaluate(ctx, cases[i:i + 5000], tagsl[i:i + 5000])
     cli_cases(ctx, ctx.scale(60, 2000))
+    mesh_route(ctx, ctx.scale(3, 60))
+    mesh_cli_route(ctx, ctx.scale(3, 40))
 
 
 def replay_witness(ctx, entry):
@@ -244,6 +344,28 @@ def replay_witness(ctx, entry):
 
 def replay(ctx, payload):
     c = payload["case"]
+    if c.get("kind") == "mesh-int":
+        from fcv import meshint_p5a as mi
+        r, spec = mi.run_api(c), mi.spec_verdicts(c)
+        print(f"replay: MeshFieldsComparator {c['switches']} dims={c['dims']} rel={c['rel']} abs={c['abs']} -> {r}; "
+              f"demanded (domain equal): {spec}")
+        bad = "raised" in r or (r["domain"] and any((r["status"].get(n) == "passed") != (v == "T") for n, v in spec.items()))
+        if bad:
+            print("VIOLATION property=C09 replay=<replayed>")
+            return 1
+        return 0
+    if c.get("kind") == "mesh-int-cli":
+        from fcv import meshint_p5a as mi
+        d = tempfile.mkdtemp(prefix="fcv_c09m_")
+        try:
+            r = mi.run_cli_case(c, d)
+        finally:
+            shutil.rmtree(d, ignore_errors=True)
+        print(f"replay: fieldcompare file <source> <reference> {' '.join(mi.cli_options(c))} -> {r}; changed entries: {c['changed']}")
+        if (c["changed"] and r["out"] == "0") or (not c["changed"] and r["out"] != "0" and r["failed_fields"]):
+            print("VIOLATION property=C09 replay=<replayed>")
+            return 1
+        return 0
     if c.get("kind") == "cli":
         print("replay of CLI cases: re-run the check (files are regenerated from the literal columns)")
         return 2
